@@ -127,10 +127,11 @@ void SoPlexBase<R>::_evaluateSolutionReal(typename SPxSimplifier<R>::Result simp
       }
       else
       {
+         // the simplifier reports UNBOUNDED as soon as it finds an improving direction (e.g. an empty column with a
+         // cost and no bound) without knowing whether the LP has a feasible point at all: without a solve of the
+         // original LP this is only "infeasible or unbounded"
          if(simplificationStatus == SPxSimplifier<R>::INFEASIBLE)
             _status = SPxSolverBase<R>::INFEASIBLE;
-         else if(simplificationStatus == SPxSimplifier<R>::UNBOUNDED)
-            _status = SPxSolverBase<R>::UNBOUNDED;
          else
             _status = SPxSolverBase<R>::INForUNBD;
 
